@@ -6,6 +6,7 @@ package argmapper
 import (
 	"fmt"
 	"reflect"
+	"strconv"
 	"strings"
 
 	"github.com/hashicorp/go-argmapper/internal/graph"
@@ -117,7 +118,9 @@ func NewValueSet(vs []Value) (*ValueSet, error) {
 		if v.Subtype != "" {
 			tags = append(tags, fmt.Sprintf("subtype=%s", v.Subtype))
 		}
-		tag := reflect.StructTag(fmt.Sprintf(`argmapper:"%s"`, strings.Join(tags, ",")))
+		// The tag value is quoted so that a subtype containing a quote, a
+		// backslash or a newline survives reflect.StructTag.Get unchanged.
+		tag := reflect.StructTag("argmapper:" + strconv.Quote(strings.Join(tags, ",")))
 
 		switch v.Kind() {
 		case ValueNamed:
